@@ -367,7 +367,51 @@ W_EXT = dict(name='w_ext', kind='ok', flavor='witness-mod', main='main.nano', fi
                  'shadow magnitude {\n    assert (== (magnitude -3) 3)\n}\n',
     'main.nano': 'import "clib.nano"\n\nfn main() -> int {\n    let a: int = (magnitude -41)\n    let b: int = (toupper 97)\n    (println a)\n    (println b)\n'
                  '    return 0\n}\n\nshadow main {\n    assert (== (main) 0)\n}\n'})
-WITNESSES = [W_MIN, W_STRINGS, W_MOD, W_MOD2, W_EXT]
+# ---- top-level constants initialised by environment-dependent builtins (reviewer's observation): the C backend replaces every use of an
+# immutable top-level `let` by the value the compile-time evaluator computed for it, so the generated C depends on the COMPILER's environment
+# / working directory.  Keyed on these two witnesses (c19:genc:<name>:env-inlined); generated programs of flavor 'envconst' are counted.
+_ENVMAIN = 'shadow main {\n    assert (== 1 1)\n}\n'
+W_ENV = dict(name='w_env_getenv', kind='ok', flavor='witness-env', main='main.nano', files={'main.nano':
+    'let L: int = (str_length (getenv "FOO"))\nlet H: int = (str_length (getenv "HOME"))\nlet U: bool = (== (getenv "NANO_UNRELATED") "1")\n\n'
+    'fn twice() -> int {\n    return (+ L L)\n}\n\nshadow twice {\n    assert (>= (twice) 0)\n}\n\n'
+    'fn main() -> int {\n    (println L)\n    (println H)\n    (println U)\n    (println (twice))\n    return 0\n}\n\n' + _ENVMAIN})
+W_CWD = dict(name='w_env_getcwd', kind='ok', flavor='witness-env', main='main.nano', files={'main.nano':
+    'let C: int = (str_length (getcwd))\n\nfn main() -> int {\n    (println C)\n    (println (+ C 1))\n    return 0\n}\n\n' + _ENVMAIN})
+ENV_WITNESSES = ('w_env_getenv', 'w_env_getcwd')
+ENV_MENU = [('int', '(str_length (getenv "FOO"))'), ('int', '(str_length (getenv "HOME"))'), ('int', '(str_length (getenv "TZ"))'), ('int', '(str_length (getcwd))'),
+            ('bool', '(== (getenv "NANO_UNRELATED") "1")'), ('bool', '(== (getenv "LANG") "C")'), ('float', '(cast_float (str_length (getenv "FOO")))'),
+            ('int', '(+ (str_length (getenv "TERM")) (str_length (getcwd)))'), ('bool', '(> (str_length (getcwd)) 40)')]
+
+
+def gen_envconst(rng, name):
+    """program whose top-level immutable constants are initialised by getenv / getcwd expressions and used in functions, conditions and main"""
+    ks = rng.sample(ENV_MENU, rng.randrange(2, 5))
+    lines, uses = [], []
+    for i, (ty, ex) in enumerate(ks):
+        lines.append('let K%d: %s = %s' % (i, ty, ex))
+        if ty == 'int':
+            uses += ['(println K%d)' % i, '(println (* K%d %d))' % (i, rng.randrange(2, 9))]
+        elif ty == 'bool':
+            uses += ['(println K%d)' % i, 'if (== K%d true) {\n        (println "yes%d")\n    } else {\n        (println "no%d")\n    }' % (i, i, i)]
+        else:
+            uses += ['(println K%d)' % i]
+    ints = [i for i, (ty, _) in enumerate(ks) if ty == 'int']
+    fn = ''
+    if ints:
+        fn = 'fn acc() -> int {\n    return (+ K%d 1)\n}\n\nshadow acc {\n    assert (>= (acc) 1)\n}\n\n' % ints[0]
+        uses.append('(println (acc))')
+    rng.shuffle(uses)
+    src = '\n'.join(lines) + '\n\n' + fn + 'fn main() -> int {\n' + '\n'.join('    ' + u for u in uses) + '\n    return 0\n}\n\n' + _ENVMAIN
+    return dict(name=name, files={'main.nano': src}, main='main.nano', kind='ok', flavor='envconst')
+
+
+def mask_literals(data):
+    """generated C with every integer / float / boolean literal replaced: two texts that differ only by inlined compile-time values become equal"""
+    s = data.decode('utf-8', 'replace') if isinstance(data, bytes) else (data or '')
+    return re.sub(r'\b\d+LL\b|\btrue\b|\bfalse\b|(?<![\w.])-?\d+(?:\.\d+)?(?:e[+-]?\d+)?(?![\w.])', '#', s)
+
+
+WITNESSES = [W_MIN, W_STRINGS, W_MOD, W_MOD2, W_EXT, W_ENV, W_CWD]
 PATH_WITNESS = 'w_mod'        # the input-path-spelling finding is keyed on this program
 
 _ILL_TAIL = '\nfn main() -> int {\n    (println (f 1 2))\n    return 0\n}\n\nshadow main {\n    assert (== (main) 0)\n}\n'
@@ -743,6 +787,8 @@ def sweep(ck, b, _bins_override=None):
             fl = order[i % len(order)]
             name = 'r%d_%02d_%s' % (ck.seed, i, fl)
             cands.append(gen_multi(rng, name, int(fl[3])) if fl.startswith('mod') else gen_single(rng, name, fl))
+        for i in range(8 if ck.thorough else 2):
+            cands.append(gen_envconst(rng, 'r%d_e%02d_envconst' % (ck.seed, i)))
         ills = [dict(p) for p in ILL] + [gen_ill(rng, 'ill_r%d_%02d' % (ck.seed, i)) for i in range(6 if ck.thorough else 1)]
 
         pool = pool_ref[0] = ThreadPoolExecutor(max_workers=WORKERS)
@@ -770,7 +816,7 @@ def sweep(ck, b, _bins_override=None):
                                                       why=((r['diag_nanoc'] or '') + (r['diag_virt'] or ''))[-300:]))
                     fl = p['flavor']
                     name = '%s_x%d' % (p['name'].split('_x')[0], attempt + 1)
-                    nxt.append(gen_multi(rng, name, int(fl[3])) if fl.startswith('mod') else gen_single(rng, name, fl))
+                    nxt.append(gen_envconst(rng, name) if fl == 'envconst' else gen_multi(rng, name, int(fl[3])) if fl.startswith('mod') else gen_single(rng, name, fl))
                     continue
                 if p['kind'] == 'ill' and (r['rc_virt'] == 0 or r['rc_nanoc'] == 0):
                     info.setdefault('ill_accepted_by', []).append(dict(name=p['name'], rc_virt=r['rc_virt'], rc_nanoc=r['rc_nanoc']))
@@ -804,6 +850,7 @@ def sweep(ck, b, _bins_override=None):
         per_kind = {k: dict(compared=0, nontrivial=0, differing=0) for k in KINDS}
         per_axis = {}
         path_embed = {}
+        env_inlined = {}
         header_pad = set()
         witness_fails = []
         diffs_by_prog_kind = {}
@@ -836,6 +883,22 @@ def sweep(ck, b, _bins_override=None):
                 pa = per_axis.setdefault(axis0, dict(compared=0, differing=0)); pa['compared'] += 1
                 verdict, det = compare(p, kind, ref, got)
                 if verdict == 'same':
+                    continue
+                if verdict == 'differs' and kind == 'genc' and p.get('flavor') in ('witness-env', 'envconst') and \
+                        mask_literals(_as_bytes(kind, ref)) == mask_literals(_as_bytes(kind, got)):
+                    env_inlined.setdefault(p['name'], set()).add(axis0)
+                    pa['differing'] += 1
+                    per_kind[kind]['differing'] += 1
+                    if p['name'] not in ENV_WITNESSES:
+                        continue        # reported once per fixed witness (stable key); generated programs are counted in ck.extra
+                    key = 'c19:genc:%s:env-inlined' % p['name']
+                    what = ('generated C of %s depends on the compiler\'s %s: an immutable top-level `let` initialised by a non-literal expression (getenv / getcwd ...) is evaluated '
+                            'at compile time and its VALUE is emitted as a literal at every use (e.g. nl_println_int(3LL)); the texts are equal once literals are masked; the .nvm '
+                            'is unaffected and the NanoVM evaluates at run time' % (p['name'], 'environment' if 'getenv' in p['name'] else 'working directory'))
+                    d = dict(program=p['files'], main=p['main'], program_name=p['name'], config_a=public_cfg(c if pairing else base_cfg), config_b=public_cfg(c),
+                             kind=kind, verdict='env_inlined', pair=pairing, axis=axis0)
+                    d.update(det)
+                    ck.fail(key, what, d)
                     continue
                 if verdict == 'header_padding':
                     header_pad.add(p['name'])
@@ -903,6 +966,7 @@ def sweep(ck, b, _bins_override=None):
                     configs=nconf, config_ids=[c['id'] for c in cfgs], axes=sorted(set(c['axis'] for c in cfgs + rc_cfgs)),
                     tool_runs=2 * (len(jobs) + len(progs) + info['dropped_programs'] + sum(1 for r in results if r.get('second'))), per_kind=per_kind, per_axis=per_axis,
                     path_embedding_programs={k: sorted(v) for k, v in path_embed.items()},
+                    env_inlined_programs={k: sorted(v) for k, v in env_inlined.items()},
                     diag_header_padding_follows_path_length=sorted(header_pad),
                     nvm_bytes=dict(min=min(sizes_n), max=max(sizes_n), total=sum(sizes_n)) if sizes_n else None,
                     genc_bytes=dict(min=min(sizes_c), max=max(sizes_c), total=sum(sizes_c)) if sizes_c else None,
